@@ -186,21 +186,17 @@ def parse_formula(tokens):
 
 
 def formula_vars(e, acc):
-    if e[0] == "var":
-        acc.add(e[1])
-    else:
-        for s in e[1:]:
-            formula_vars(s, acc)
+    stack = [e]
+    while stack:
+        x = stack.pop()
+        if x[0] == "var":
+            acc.add(x[1])
+        else:
+            stack.extend(x[1:])
     return acc
 
 
-def eval_formula(e, env):
-    op = e[0]
-    if op == "var":
-        return env[e[1]]
-    if op == "not":
-        return not eval_formula(e[1], env)
-    a, b = eval_formula(e[1], env), eval_formula(e[2], env)
+def _combine(op, a, b):
     if op == "and":
         return a and b
     if op == "or":
@@ -212,6 +208,18 @@ def eval_formula(e, env):
     if op == "<->":
         return a == b
     raise ParseError(op)
+
+
+def eval_formula(e, env):
+    """Iterative along the left spine: the exports contain left-nested chains of tens of thousands of operands."""
+    spine = []
+    while e[0] not in ("var", "not"):
+        spine.append(e)
+        e = e[1]
+    val = env[e[1]] if e[0] == "var" else (not eval_formula(e[1], env))
+    for node in reversed(spine):
+        val = _combine(node[0], val, eval_formula(node[2], env))
+    return val
 
 
 def parse_exp(text):
